@@ -64,7 +64,7 @@ Lemma rhl_generic_blank U W D (ic ip : bool) :
   read_header_line (46 :: U ++ W ++ 58 :: D) ic ip =
   Some (mkhl [] (fix_unit U) (strip W) (strip D)).
 Proof.
-  intros HR HU HWa HDa Hdd Hsec. unfold read_header_line.
+  intros HR HU HWa HDa Hdd Hsec. change (@nil N) with (strip []) at 1. unfold read_header_line.
   rewrite (cp_period _ ic ip).
   - destruct ip.
     + destruct Hsec as [(Hcc & Hb & Ha & HWD)|(Hno & HD)].
@@ -72,7 +72,7 @@ Proof.
         apply (rhl_of_captures _ _ y); [|exact Hc]. cbn [first_match]. rewrite Hy. reflexivity.
       * destruct (main_run_blank U W D HR HU HWa HDa HD) as (y & Hy & Hc).
         apply (rhl_of_captures _ _ y); [|exact Hc]. cbn [first_match].
-        rewrite (time_fail _ Hno), Hy. reflexivity.
+        pose proof (time_fail _ Hno) as Htf. cbn [app] in Htf. rewrite Htf, Hy. reflexivity.
     + destruct (main_run_blank U W D HR HU HWa HDa Hsec) as (y & Hy & Hc).
       apply (rhl_of_captures _ _ y); [|exact Hc]. cbn [first_match]. rewrite Hy. reflexivity.
   - rewrite in_str_cons, in_str_app, in_str_app, in_str_cons. cbn. rewrite !orb_true_r. reflexivity.
@@ -115,8 +115,9 @@ Proof.
   rewrite (rhl_generic_blank u (p2 ++ v ++ p3) (p4 ++ d ++ p5) ic ip).
   - rewrite fix_unit_id; [|apply no_space_stripped; exact Hus|exact Hue].
     rewrite !strip_pad by assumption. reflexivity.
-  - rewrite in_str_app, in_str_app3, in_str_cons, in_str_app3, Hud; try assumption;
-      try (apply blanks_in_str; [reflexivity|assumption]). reflexivity.
+  - rewrite !in_str_app, in_str_cons, !in_str_app, Hud, Hvd, Hdd.
+    rewrite (blanks_in_str 46 p2 eq_refl Hp2), (blanks_in_str 46 p3 eq_refl Hp3),
+      (blanks_in_str 46 p4 eq_refl Hp4), (blanks_in_str 46 p5 eq_refl Hp5). reflexivity.
   - exact HU.
   - apply lay_W_any; assumption.
   - apply lay_D_any; assumption.
